@@ -1,8 +1,9 @@
 (** C16 -- PGM step-size policies return the documented, usable step sizes.
     Only statements; each closed by [exact] of a lemma of coq/theories/C16.
     Models: C16/XR.v (IEEE extended scalar), C16/StepSize.v (the four [update] methods and the
-    point PGM / AcceleratedPGM hand to them).  Defects of the unchanged tree: Findings/C16_*.v. *)
-From Coq Require Import Bool Arith Reals Lra.
+    point PGM / AcceleratedPGM hand to them).  Defect of the unchanged tree (line-search exhaustion): Findings/C16_linesearch_exhaust.v. *)
+From Coq Require Import Bool Arith Reals Lra List.
+Import ListNotations.
 From SV Require Import Base.Num C16.XR C16.StepSize C16.StepSizeR.
 Local Open Scope R_scope.
 
@@ -17,11 +18,11 @@ Proof. exact bb_ratio. Qed.
 Print Assumptions C16_bb_ratio_or_previous.
 
 (** For all extended inputs (nan, +-inf, signed zeros): fall back to the previous L iff the
-    IEEE quotient is NaN or <= 0. *)
+    IEEE quotient is not finite or <= 0. *)
 Theorem C16_bb_fallback_iff :
   forall (pgmL gg xg : xr R),
     let r := xdiv gg xg in
-    bb_update pgmL false gg xg = if xisnan r || xle0 r then pgmL else r.
+    bb_update pgmL false gg xg = if negb (xisfinite r) || xle0 r then pgmL else r.
 Proof. exact bb_fallback_iff. Qed.
 Print Assumptions C16_bb_fallback_iff.
 
@@ -30,35 +31,49 @@ Theorem C16_bb_first_call :
 Proof. exact bb_first. Qed.
 Print Assumptions C16_bb_first_call.
 
-(** zero denominator (+0): 0/0 and negative/0 fall back, positive/0 = +inf is returned *)
+(** zero denominator (+0 or -0): 0/0 = nan and num/0 = +-inf all fall back *)
 Theorem C16_bb_zero_denominator :
-  forall (pgmL : xr R) (gg : R),
-    bb_update pgmL false (Fin gg) (Fin 0) = if Rlt_dec 0 gg then PInf else pgmL.
+  forall (pgmL : xr R) (gg : R) (z : xr R),
+    z = Fin 0 \/ z = NZ -> bb_update pgmL false (Fin gg) z = pgmL.
 Proof. exact bb_zero_den. Qed.
 Print Assumptions C16_bb_zero_denominator.
 
-(** RESTRICTED (full statement: without [xdiv gg xg <> PInf]; refuted by
-    SVFind.C16_bb_inf.bb_posfin_refuted): the returned L is finite and > 0 whenever pgm.L is. *)
-Theorem C16_bb_posfin_restricted :
+Theorem C16_bb_nonfinite_falls_back :
+  forall (pgmL gg xg : xr R), xisfinite (xdiv gg xg) = false -> bb_update pgmL false gg xg = pgmL.
+Proof. exact bb_nonfinite_falls_back. Qed.
+Print Assumptions C16_bb_nonfinite_falls_back.
+
+(** FULL statement: for all extended inputs the returned L is finite and > 0 whenever pgm.L is. *)
+Theorem C16_bb_posfin :
   forall (pgmL gg xg : xr R) first,
-    xposfin pgmL = true -> xdiv gg xg <> PInf ->
-    xposfin (bb_update pgmL first gg xg) = true.
-Proof. exact bb_posfin_restricted. Qed.
-Print Assumptions C16_bb_posfin_restricted.
+    xposfin pgmL = true -> xposfin (bb_update pgmL first gg xg) = true.
+Proof. exact bb_posfin. Qed.
+Print Assumptions C16_bb_posfin.
 
-(** ... and the restriction is sharp: the result is unusable exactly when the quotient is +inf,
-    which for finite inner products means a zero denominator under a non-zero numerator. *)
-Theorem C16_bb_unusable_iff :
-  forall (pgmL gg xg : xr R), xposfin pgmL = true ->
-    (xposfin (bb_update pgmL false gg xg) = false <-> xdiv gg xg = PInf).
-Proof. exact bb_unusable_iff. Qed.
-Print Assumptions C16_bb_unusable_iff.
+(** ... hence along every run (every sequence of points, every value of the inner products) *)
+Theorem C16_bb_run_posfin :
+  forall P (ipxg ipgg : P -> P -> xr R) vs pgmL mem,
+    xposfin pgmL = true -> List.Forall (fun L => xposfin L = true) (bb_run P ipxg ipgg pgmL mem vs).
+Proof. exact bb_run_posfin. Qed.
+Print Assumptions C16_bb_run_posfin.
 
-Theorem C16_quotient_infinite_iff :
-  forall (p : R) (b : xr R),
-    xdiv (Fin p) b = PInf <-> (b = Fin 0 /\ 0 < p) \/ (b = NZ /\ p < 0).
-Proof. exact xdiv_fin_pinf. Qed.
-Print Assumptions C16_quotient_infinite_iff.
+(** the stored previous point: after ANY update (first call, accepted ratio, fall-back) it is the
+    current argument, so every ratio is formed from the differences between the current argument
+    and the immediately preceding one *)
+Theorem C16_bb_memory_is_current :
+  forall (K : Type) (NK : Num K) P (ipxg ipgg : P -> P -> xr K) pgmL mem cur,
+    snd (bb_step P ipxg ipgg pgmL mem cur) = Some cur.
+Proof. intros K NK. exact (@bb_step_memory K NK). Qed.
+Print Assumptions C16_bb_memory_is_current.
+
+Theorem C16_bb_consecutive_differences :
+  forall (K : Type) (NK : Num K) P (ipxg ipgg : P -> P -> xr K) pgmL mem u v r,
+    bb_run P ipxg ipgg pgmL mem (u :: v :: r) =
+    let L0 := fst (bb_step P ipxg ipgg pgmL mem u) in
+    let L1 := bb_update L0 false (ipgg u v) (ipxg u v) in
+    L0 :: L1 :: bb_run P ipxg ipgg L1 (Some v) r.
+Proof. intros K NK. exact (@bb_run_consecutive K NK). Qed.
+Print Assumptions C16_bb_consecutive_differences.
 
 (** ** Adaptive Barzilai-Borwein *)
 
@@ -67,8 +82,8 @@ Print Assumptions C16_quotient_infinite_iff.
 Theorem C16_abb_structure :
   forall kappa (pgmL : xr R) m xx xg gg,
     let r1 := xdiv xg xx in let r2 := xdiv gg xg in
-    let L1 := if xisnan r1 || xle0 r1 then fst m else Some r1 in
-    let L2 := if xisnan r2 || xle0 r2 then snd m else Some r2 in
+    let L1 := if negb (xisfinite r1) || xle0 r1 then fst m else Some r1 in
+    let L2 := if negb (xisfinite r2) || xle0 r2 then snd m else Some r2 in
     abb_update kappa pgmL false m xx xg gg =
     (match L1, L2 with
      | Some a, Some b => if xltk (xdiv a b) kappa then b else a
@@ -92,16 +107,29 @@ Theorem C16_abb_missing_estimate :
 Proof. exact abb_missing. Qed.
 Print Assumptions C16_abb_missing_estimate.
 
-(** RESTRICTED (full statement: without the two [<> PInf]; refuted by
-    SVFind.C16_bb_inf.abb_posfin_refuted), for every history (invariant of the memory) *)
-Theorem C16_abb_posfin_restricted :
+(** FULL statement, for every history (invariant of the memory) and all extended inputs *)
+Theorem C16_abb_posfin :
   forall kappa (pgmL : xr R) first m xx xg gg,
     xposfin pgmL = true -> mem_ok m ->
-    xdiv xg xx <> PInf -> xdiv gg xg <> PInf ->
     let '(L, m') := abb_update kappa pgmL first m xx xg gg in
     xposfin L = true /\ mem_ok m'.
-Proof. exact abb_posfin_restricted. Qed.
-Print Assumptions C16_abb_posfin_restricted.
+Proof. exact abb_posfin. Qed.
+Print Assumptions C16_abb_posfin.
+
+Theorem C16_abb_memory_is_current :
+  forall (K : Type) (NK : Num K) P (ipxx ipxg ipgg : P -> P -> xr K) kappa pgmL mem m cur,
+    fst (snd (abb_step P ipxx ipxg ipgg kappa pgmL mem m cur)) = Some cur.
+Proof. intros K NK. exact (@abb_step_memory K NK). Qed.
+Print Assumptions C16_abb_memory_is_current.
+
+Theorem C16_abb_consecutive_differences :
+  forall (K : Type) (NK : Num K) P (ipxx ipxg ipgg : P -> P -> xr K) kappa pgmL mem m u v r,
+    abb_run P ipxx ipxg ipgg kappa pgmL mem m (u :: v :: r) =
+    let '(L0, (_, m0)) := abb_step P ipxx ipxg ipgg kappa pgmL mem m u in
+    let '(L1, m1) := abb_update kappa L0 false m0 (ipxx u v) (ipxg u v) (ipgg u v) in
+    L0 :: L1 :: abb_run P ipxx ipxg ipgg kappa L1 (Some v) m1 r.
+Proof. intros K NK. exact (@abb_run_consecutive K NK). Qed.
+Print Assumptions C16_abb_consecutive_differences.
 
 (** ** Line search (f(z_L) and the quadratic model are arbitrary functions of L) *)
 
